@@ -82,6 +82,7 @@ Definition ids (cs : list cand) : list Z := map c_node cs.
 
 Definition propose_with (mp : Z -> Z) (ps : list (pool sidc)) (m : method) (cs : list cand) (ch : choice) : list cand :=
   match m, ch with
+  | _, ChSkip => []
   | MEmptiness, _ => emptiness_select mp cs
   | MMulti, ChK k => multi_select mp cs k
   | MSingle, _ => one_if_budget mp cs
@@ -171,8 +172,9 @@ Fixpoint checkR (s : sys sidc) (ops : list (op sidc * list Z)) : bool * bool :=
   | [] => (true, true)
   | (o, newq) :: t =>
       match o with
-      | ODisrupt m cs ch vok b1 c1 b2 c2 =>
-          let '(sel, sv) := disrupt_sel sidc nextc s m cs ch vok b1 c1 b2 c2 in
+      | ODisrupt m cs ch vok b1 c1 b2 c2 startfail =>
+          let '(sel0, sv) := disrupt_sel sidc nextc s m cs ch vok b1 c1 b2 c2 in
+          let sel := filter (fun c => negb (existsb (Z.eqb (c_node c)) startfail)) sel0 in
           let pool_of i := match find_node sv i with Some x => n_pool x | None => -1 end in
           let corr :=
             list_eqb Z.eqb (sort_z (map pool_of newq)) (sort_z (map pool_of (ids sel))) &&
